@@ -76,10 +76,18 @@ def run(prop, tier):
     viol = None
     cases, impl, meta = [], [], []
     # ---- _duration_to_nb_windows, ms grid (exact oracle) + random doubles (bit-exact with the model)
-    eps = core._EPSILON
+    # (a private helper: when a refactoring has removed or reshaped it, the same counts are observed through split() below)
+    helper = getattr(core, "_duration_to_nb_windows", None)
+    eps = getattr(core, "_EPSILON", None)
+    try:
+        import inspect
+        helper_ok = callable(helper) and isinstance(eps, float) and len(inspect.signature(helper).parameters) == 4
+    except Exception:
+        helper_ok = False
+    res.notes["private_helper_exercised_directly"] = helper_ok
     grid_b = [1, 5, 10, 20, 30, 50, 100, 200, 3, 7, 11] if quick else list(range(1, 201, 1))
     grid_a = range(0, 3001 if quick else 5001, 1 if not quick else 1)
-    for b in grid_b:
+    for b in (grid_b if helper_ok else []):
         w = b / 1000
         for a in (grid_a if b in (10, 50) or not quick else range(0, 3001, 7)):
             d = a / 1000
@@ -89,7 +97,7 @@ def run(prop, tier):
                 viol = {"what": "duration %r s with window %r s: counts ceil=%d floor=%d, exact ceil(%d/%d)=%d floor=%d" % (d, w, c, f, a, b, -((-a) // b), a // b),
                         "duration": d, "window": w}
     n_grid = sum(1 for _ in grid_b) * 400
-    for _ in range(4000 if quick else 60000):
+    for _ in range((4000 if quick else 60000) if helper_ok else 0):
         d = r.choice([r.uniform(0, 10), r.randint(0, 5000) / 1000, r.randint(1, 50) * r.choice([0.01, 0.05, 0.1, 0.02]), 0.0, -0.1, 1e-12, 5])
         w = r.choice([0.01, 0.05, 0.1, 0.02, 0.03, r.uniform(0.001, 0.5), 1 / 3, 0.0, -0.01, 0.016, 512 / 16000])
         rn = r.choice([0, 1]); ek = r.choice([0, 1, 2])
